@@ -99,7 +99,12 @@ func (p *Prog) JS() string {
 		case "loop":
 			sb.WriteString("for(;;){}\n")
 		case "emitBad":
-			sb.WriteString("_.out(function(){});\n")
+			if len(op) > 1 && op[1] == "cycle" {
+				// a value that contains itself cannot be serialised either
+				sb.WriteString("var cyc = {\"to\": \"audit\"}; cyc.self = [cyc]; _.out(cyc);\n")
+			} else {
+				sb.WriteString("_.out(function(){});\n")
+			}
 		}
 	}
 	switch p.Ret {
@@ -112,7 +117,12 @@ func (p *Prog) JS() string {
 	case "fresh":
 		sb.WriteString("return {\"fresh\": true};\n")
 	case "nan":
-		sb.WriteString("bs[\"bad\"] = 0/0;\nreturn bs;\n")
+		if len(p.Ops)%2 == 0 {
+			sb.WriteString("bs[\"bad\"] = 0/0;\nreturn bs;\n")
+		} else {
+			// bindings that contain themselves
+			sb.WriteString("var r = {\"count\": 1}; r.me = {\"again\": r};\nreturn r;\n")
+		}
 	default:
 		sb.WriteString("return bs;\n")
 	}
@@ -227,6 +237,9 @@ func (g *G) Action(guard bool, mode string) *Prog {
 			f = []interface{}{"fail", g.boom()}
 		case 4:
 			f = []interface{}{"emitBad"}
+			if g.P(1, 2) {
+				f = append(f, "cycle")
+			}
 		case 5:
 			if mode == "timeouts" {
 				f = []interface{}{"loop"}
